@@ -44,6 +44,13 @@ func genCtx(seed uint64, tier string) *Scenario {
 		}
 		dm := r.rangeI(1, 2*dn)
 		u, v := r.genDivision(dn, dm)
+		if r.chance(0.3) {
+			u = r.genWords(r.rangeI(1, 2), r.pick(1, 1, 0, 4))
+			dm = dn/2 + r.rangeI(-2, 2)
+			if dm < 1 {
+				dm = 1
+			}
+		}
 		mk := func(w []uint64) VarSpec {
 			return VarSpec{Form: 1, Words: w, Exp: int32(r.rangeI(-20, 20)), Prec: uint32(len(w) * wordDigits), Mode: uint8(r.intn(6)), Neg: r.chance(0.3)}
 		}
